@@ -266,13 +266,18 @@ def main(argv=None):
                   and agg["pending_prefixes"] == 0 and not harness_errors)
     lem_unknown = [l["name"] for l in lemma_results if l["status"] == "unknown"]
     required = getattr(hmod, "REQUIRED_OUTCOMES", ())
-    for req in required:
-        if not any(k.startswith(req) for k in outcomes):
+    unreached = [req for req in required if not any(k.startswith(req) for k in outcomes)]
+    if unreached and not timed_out and not a.only:
+        # every job ran to its end and an outcome class the harness is built to reach never occurred:
+        # the harness no longer exercises what it claims to
+        for req in unreached:
             harness_errors.append(f"reachability witness '{req}' not reached by any path")
 
     incomplete = []
     if timed_out:
         incomplete.append(f"{len(timed_out)} job(s) hit their time budget: {timed_out[:6]}")
+        if unreached:
+            incomplete.append(f"outcome classes not reached before the budget ran out: {unreached}")
     if incomplete_replays and not viol_lines:
         incomplete.append(f"{incomplete_replays} counterexample candidates were not replayed (cap)")
     if agg["unknown"]:
